@@ -16,6 +16,22 @@
 (***************************************************************************)
 EXTENDS Naturals, Sequences, FiniteSets, TLC
 
+(***************************************************************************)
+(* Spelling of hex-valued fields.  Established by running the unchanged    *)
+(* loaders on every member for every hex field of both versions:           *)
+(*   SpellAccepted  read as the very same bytes (and written back in the   *)
+(*                  canonical spelling by version 2, verbatim by version 1)*)
+(*   SpellRefused   the document is refused at load                        *)
+(* One exception: a version-2 `auth_data` that is the EMPTY string is a    *)
+(* legitimate value (zero bytes), not a spelling.  The property does not   *)
+(* care which members are accepted - only that whatever loads keeps its    *)
+(* verdicts and values across save ; load (JudgeRoundTrip); the table      *)
+(* fixes what the model's loader does and what counts as model drift.      *)
+(***************************************************************************)
+SpellAccepted == {"lower", "upper", "mixed", "lead_blank", "trail_blank", "inner_blanks", "tabs",
+                  "trail_newline"}
+SpellRefused  == {"ws_only", "empty", "prefix_0x", "odd", "non_ascii", "split_pair", "nbsp"}
+
 (* finite, cycle-free path from n to the root inside graph g *)
 RECURSIVE ClimbOk(_, _, _, _)
 ClimbOk(g, root, n, seen) ==
